@@ -57,7 +57,8 @@ type Signature struct {
 	Unprotected Headers
 	Signature   []byte
 
-	toSign []byte
+	protected []byte // protected bucket as received, nil if not decoded
+	toSign    []byte
 }
 
 // WithSign signs a COSE_Sign message with some Signers.
@@ -152,7 +153,10 @@ func (m *SignMessage[T]) Verify(verifiers key.Verifiers, externalData []byte) er
 			}
 		}
 
-		protected, _ := sig.Protected.Bytes()
+		protected := sig.protected
+		if protected == nil {
+			protected, _ = sig.Protected.Bytes()
+		}
 		sig.toSign = m.mm.toSign(protected, externalData)
 		if err = verifier.Verify(sig.toSign, sig.Signature); err != nil {
 			return err
@@ -268,8 +272,10 @@ func (s *Signature) MarshalCBOR() ([]byte, error) {
 	}
 
 	var err error
-	if sm.Protected, err = s.Protected.Bytes(); err != nil {
-		return nil, err
+	if sm.Protected = s.protected; sm.Protected == nil {
+		if sm.Protected, err = s.Protected.Bytes(); err != nil {
+			return nil, err
+		}
 	}
 
 	return key.MarshalCBOR(sm)
@@ -291,6 +297,10 @@ func (s *Signature) UnmarshalCBOR(data []byte) error {
 		return err
 	}
 
+	s.protected = sm.Protected
+	if s.protected == nil {
+		s.protected = []byte{}
+	}
 	s.Unprotected = sm.Unprotected
 	s.Signature = sm.Signature
 	return nil
